@@ -44,6 +44,29 @@ def content(kind, cls, respin):
     return doc(other, respin)                    # a valid document of another format
 
 
+CURRENT_NAMES = ("images.json", "rpms.json")
+_REF = {}
+
+
+def _both_reference(kind):
+    """Does the library prefer the current name in the plain direct layout? (None if it cannot be told)"""
+    if kind not in _REF:
+        import productmd.compose
+        d = tempfile.mkdtemp(prefix="verif-c20ref-")
+        try:
+            case = {"st": {"R": "meta_ci", "C": "absent", "L1": "absent", "L2": "absent"}, "names": "both", "content": "valid", "cibad": False}
+            path = materialise(case, d)
+            obj = getattr(productmd.compose.Compose(path), kind)
+            cur = type(obj)()
+            cur.load(os.path.join(path, "metadata", "images.json" if kind == "images" else "rpms.json"))
+            _REF[kind] = obj.dumps() == cur.dumps()
+        except Exception:
+            _REF[kind] = None
+        finally:
+            shutil.rmtree(d, ignore_errors=True)
+    return _REF[kind]
+
+
 def materialise(case, root):
     path = os.path.join(root, "compose-dir")
     st = case["st"]
@@ -89,12 +112,50 @@ def evaluate(case):
     try:
         path = materialise(case, root)
         arg = path + ("/" if case["slash"] else "")
+        unstub = None
+        if case.get("http"):
+            # the compose served over HTTP: urlopen is replaced by a stub that serves the materialised directory
+            import productmd.common
+            import urllib.error
+            base = "http://example.noexist/c/compose-dir"
+            req = productmd.common.six.moves.urllib.request
+            orig = req.urlopen
+
+            def fake(url, **kw):
+                rel = url[len(base):].lstrip("/") if url.startswith(base) else None
+                local = None if rel is None else os.path.join(path, rel)
+                if local is None or not os.path.exists(local):
+                    raise urllib.error.HTTPError(url, 404, "Not Found", None, None)
+                if os.path.isdir(local):
+                    import io
+                    return io.StringIO("<html>index</html>")
+                return open(local, "r")
+            req.urlopen = fake
+            unstub = lambda: setattr(req, "urlopen", orig)      # noqa: E731
+            arg = base + ("/" if case["slash"] else "")
+            what += " over-http"
+        try:
+            return _evaluate(case, what, root, path, arg, fails)
+        finally:
+            if unstub:
+                unstub()
+    finally:
+        shutil.rmtree(root, ignore_errors=True)
+
+
+def _evaluate(case, what, root, path, arg, fails):
+    import productmd.compose
+    http = bool(case.get("http"))
+    if True:
         try:
             c = productmd.compose.Compose(arg)
         except Exception as exc:
             return ["%s: Compose(path) raised %s: %s" % (what, type(exc).__name__, exc)]
         allowed = {os.path.normpath(os.path.join(path, SUB[d])): d for d in case["resolved"]}
         got = os.path.normpath(c.compose_path)
+        if http:
+            base = "http://example.noexist/c/compose-dir"
+            got = os.path.normpath(path + c.compose_path[len(base):]) if c.compose_path.startswith(base) else c.compose_path
         if got not in allowed:
             return ["%s: compose_path resolved to %s, documented precedence allows %s" % (what, os.path.relpath(got, root),
                                                                                          sorted(os.path.relpath(a, root) for a in allowed))]
@@ -125,6 +186,14 @@ def evaluate(case):
                     texts[fn] = direct.dumps()
                 if obj.dumps() not in texts.values():
                     fails.append("%s: .%s differs from loading %s directly" % (what, kind, sorted(e["files"])))
+                elif len(texts) == 2 and len(set(texts.values())) == 2:
+                    # both names exist: the statement does not say which wins, but the choice may not depend on the layout.
+                    # Reference: what the library picks in the plain direct layout.
+                    chosen = [fn for fn, t in texts.items() if t == obj.dumps()][0]
+                    ref = _both_reference(kind)
+                    if ref is not None and (chosen in CURRENT_NAMES) != ref:
+                        fails.append("%s: with both names present .%s comes from %s here but from the %s name in the direct layout"
+                                     % (what, kind, chosen, "current" if ref else "legacy"))
                 # loaded once, then reused: replace the files, access again
                 for fn in e["files"]:
                     with open(os.path.join(got, "metadata", fn), "w") as fh:
@@ -144,14 +213,15 @@ def evaluate(case):
                 except Exception as exc:
                     fails.append("%s: second access to .%s raised %s" % (what, kind, type(exc).__name__))
                 msg = str(err)
+                if http:
+                    msg = msg.replace("http://example.noexist/c/compose-dir", path)
                 if e["out"] == "missing":
-                    if got not in msg and arg.rstrip("/") not in msg:
+                    if got not in msg and arg.rstrip("/") not in msg and os.path.normpath(got) not in os.path.normpath(msg):
                         fails.append("%s: RuntimeError for missing %s does not name the location: %r" % (what, kind, msg))
                 else:
-                    if not any(os.path.join(got, "metadata", fn) in msg for fn in e["files"]):
+                    if not any(os.path.join(got, "metadata", fn) in msg or os.path.join(got, "metadata", fn) in os.path.normpath(msg)
+                               for fn in e["files"]):
                         fails.append("%s: RuntimeError for undecodable %s does not name the file: %r" % (what, kind, msg))
-    finally:
-        shutil.rmtree(root, ignore_errors=True)
     return fails
 
 
